@@ -680,4 +680,151 @@ theorem headerW (chk : Bool) (bs : List Nat) :
     · have hnl : rest.length < size - 1 := by omega
       simp [hnl, Integrity.decodeFileHeader, hsz, hasN_false' hnl, errAB]
 
+/-! ### the `Next`/`Decode` loop -/
+
+/-- the observable of the run is `R`, unless the run ends with (D)'s `invalidBaseType` -/
+def QW (R : List WEv × Option Wire.Err) (out : DecProg.Out) : Prop :=
+  out.status ≠ some .invalidBaseType → wireObsD out = R
+
+theorem QW_inv (R : List WEv × Option Wire.Err) (st : DecProg.St) : QW R (DecProg.fail st .invalidBaseType) := by
+  intro h; exact absurd rfl h
+
+theorem QW_fail (st : DecProg.St) (e : DecProg.Err) (seen : List WEv) (h : st.evs.reverse.map wevOfD = seen) :
+    QW (seen, some (errAofD e)) (DecProg.fail st e) := by
+  intro _; simp [wireObsD, DecProg.fail, h]
+
+/-- one iteration of (A)'s loop when the header decodes -/
+theorem decodeStream_succ (tsKnown : Nat → Bool) (chk : Bool) (fuel : Nat) (first : Bool) (bs : Bytes) (hd : Wire.DecHdr) (rest : Bytes)
+    (hA : Wire.decodeHeader chk bs = .ok (hd, rest)) :
+    Wire.decodeStream tsKnown chk (fuel + 1) first bs =
+      match Wire.decodeRecords tsKnown rest.length Wire.DecState.fresh hd.dataSize rest with
+      | (items, .error e) => (items.map .item, some e)
+      | (items, .ok rest2) =>
+        match rest2 with
+        | c0 :: c1 :: rest3 =>
+          if (chk && write 0 (rest.take (rest.length - rest2.length)) != c0 + 256 * c1) = true then (items.map .item, some .crcMismatch)
+          else (items.map .item ++ [.seq ⟨hd, items, c0 + 256 * c1⟩] ++ (Wire.decodeStream tsKnown chk fuel false rest3).1,
+            (Wire.decodeStream tsKnown chk fuel false rest3).2)
+        | _ => (items.map .item, some .eof) := by
+  conv => lhs; unfold Wire.decodeStream
+  have hnone : (!first && (Wire.decodeHeader chk bs).toOption.isNone) = false := by
+    rw [hA]; simp [Except.toOption]
+  rw [if_neg (by rw [hnone]; simp)]
+  unfold Wire.decodeFit
+  rw [hA]
+  simp only
+  rcases Wire.decodeRecords tsKnown rest.length Wire.DecState.fresh hd.dataSize rest with ⟨items, r⟩
+  cases r with
+  | error e => rfl
+  | ok rest2 =>
+    simp only
+    match rest2 with
+    | [] => rfl
+    | [_] => rfl
+    | c0 :: c1 :: rest3 =>
+      simp only
+      by_cases hc : (chk && write 0 (List.take (List.length rest - (c0 :: c1 :: rest3).length) rest) != c0 + 256 * c1) = true
+      · simp only [hc, if_true]
+      · simp only [hc, if_false, Bool.false_eq_true]
+
+/-- **THE LOOP, (A) against (D).** -/
+theorem streamW (tsKnown : Nat → Bool) (chk : Bool) : ∀ (fuel : Nat) (first : Bool) (evs : List DecProg.Ev) (bs : Bytes),
+    QW ((evs.reverse.map wevOfD) ++ (Wire.decodeStream tsKnown chk fuel first bs).1.map wevOfA,
+        (Wire.decodeStream tsKnown chk fuel first bs).2)
+      (runExact (DecProg.decodeLoop chk fuel first evs) bs) := by
+  intro fuel
+  induction fuel with
+  | zero =>
+    intro first evs bs _
+    simp [Wire.decodeStream, DecProg.decodeLoop, runExact, wireObsD]
+  | succ fuel ih =>
+    intro first evs bs
+    unfold DecProg.decodeLoop
+    have hA := headerW chk bs
+    apply fileHeader_wp (Φ := QW _)
+    · -- empty stream
+      intro hbs
+      subst hbs
+      intro _
+      cases first <;> simp [Wire.decodeStream, Wire.decodeHeader, Wire.decodeFit, runExact, wireObsD, DecProg.Err.endsIteration, errAofD, Except.toOption]
+    · -- the header does not decode
+      intro e' r hne he hends
+      rw [he] at hA
+      simp only at hA
+      intro _
+      cases first <;> simp [Wire.decodeStream, Wire.decodeFit, hA, runExact, wireObsD, hends, errAofD_eq, Except.toOption]
+    · -- the header decodes
+      intro h rest he
+      rw [he] at hA
+      simp only at hA
+      have hAS := decodeStream_succ tsKnown chk fuel first bs _ rest hA
+      have hds : (hdrW h bs).dataSize = h.dataSize := rfl
+      rw [hds] at hAS
+      rcases hdr : Wire.decodeRecords tsKnown rest.length Wire.DecState.fresh h.dataSize rest with ⟨items, r⟩
+      rw [hdr] at hAS
+      apply recordsW tsKnown chk h.dataSize _ (QW_inv _) rest.length h.dataSize { evs := evs } Wire.DecState.fresh
+        (evs.reverse.map wevOfD) rest h.dataSize ⟨rfl, rfl⟩ (Nat.le_refl _) (by simp) (by simp)
+      rw [hdr]
+      cases r with
+      | error e =>
+        simp only at hAS ⊢
+        intro st' e' hev hee
+        rw [hAS, ← hee]
+        have := QW_fail st' e' _ hev
+        simpa [itemsW, List.map_map, Function.comp_def] using this
+      | ok rest2 =>
+        simp only at hAS ⊢
+        intro st' hev ha
+        unfold DecProg.fileCrc
+        obtain ⟨c, hc1, hc2, hc3⟩ := ha
+        have hcons : rest.take (rest.length - rest2.length) = c := by
+          rw [hc1, List.length_append, Nat.add_sub_cancel, List.take_left' rfl]
+        rw [hcons] at hAS
+        match rest2, hAS, hc1 with
+        | [], hAS, hc1 =>
+          simp only at hAS
+          rw [runExact_read_short _ _ _ (by simp), hAS]
+          have := QW_fail st' (.io .eof) _ hev
+          simpa [itemsW, List.map_map, Function.comp_def, runExact, errAofD] using this
+        | [x], hAS, hc1 =>
+          simp only at hAS
+          rw [runExact_read_short _ _ _ (by simp), hAS]
+          have := QW_fail st' (.io .unexpectedEof) _ hev
+          simpa [itemsW, List.map_map, Function.comp_def, runExact, errAofD] using this
+        | c0 :: c1 :: rest3, hAS, hc1 =>
+          simp only at hAS
+          rw [runExact_read_ok _ _ _ (by simp)]
+          dsimp only
+          generalize hgc : DecProg.le16 (List.take 2 (c0 :: c1 :: rest3)) = gc
+          have egc : c0 + 256 * c1 = gc := by rw [← hgc]; rfl
+          subst egc
+          have hd2 : List.drop 2 (c0 :: c1 :: rest3) = rest3 := rfl
+          rw [hd2]
+          have hcrc : st'.crc = if chk = true then write 0 c else 0 := hc3
+          by_cases hbad : chk = true ∧ st'.crc ≠ c0 + 256 * c1
+          · rw [if_pos hbad]
+            have hb' : (chk && write 0 c != c0 + 256 * c1) = true := by
+              rw [hbad.1] at hcrc ⊢
+              simp only [if_true] at hcrc
+              rw [← hcrc]; simpa using hbad.2
+            rw [if_pos hb'] at hAS
+            rw [hAS]
+            have := QW_fail st' .crc _ hev
+            simpa [itemsW, List.map_map, Function.comp_def, runExact, errAofD] using this
+          · rw [if_neg hbad]
+            have hgood : ¬ (chk && write 0 c != c0 + 256 * c1) = true := by
+              cases chk with
+              | false => simp
+              | true =>
+                simp only [if_true] at hcrc
+                simp only [true_and, ne_eq, Decidable.not_not] at hbad
+                simp [← hcrc, hbad]
+            rw [if_neg hgood] at hAS
+            rw [hAS]
+            have hih := ih false (DecProg.Ev.seq h.size (((bs.drop 1).take (h.size - 1)).headD 0)
+              (DecProg.le16 (((bs.drop 1).take (h.size - 1)).drop 1)) h.dataSize h.crc (c0 + 256 * c1) st'.msgs :: st'.evs) rest3
+            intro hst
+            rw [hih hst]
+            simp [hev, itemsW, List.map_map, Function.comp_def, wevOfD, wevOfA, hdrW, List.append_assoc]
+
 end Fit.Link
